@@ -26,6 +26,7 @@ COUNT = {"quick": 6000, "thorough": None}
 BUDGET = {"quick": 45, "thorough": 600}
 CHUNK = 4000
 RULE = (
+    'Half of the BasicOptimizer scenarios call run() two or three times on one object, with all evaluations failing in 60% of the later runs. '
     "plans of 1-3 sequential steps (optimizer/evaluator; 15% nested) under the scripted optimizer with request scripts of "
     "length 1-6 over a pool of 2-4 points that contains repeated points (ties) and points outside the bounds / linear / "
     "non-linear constraints; 35% of runs inject an all-realizations NaN evaluation with realization_min_success=0 and a "
